@@ -234,6 +234,18 @@ def _run_case(case, ctx):
                       {"lenclasses": ",".join(sorted(set(len_class(s) for s in stored)))}, prop="C07")
         return
     ok = compare_listing(ctx, "C07", form, listed, stored, wit, check_ext=True)
+    if ok and listed and sum(len(s["data"]) // 2 for s in stored) < 60000:
+        # second generation: write the files just listed to a fresh disk and list again (disk-to-disk copy)
+        try:
+            mediamon.set_form(form + ".second-generation")
+            d2 = DiskFile()
+            d2.add_files(listed)
+            again = DiskFile(buffer=list(d2.get_buffer())).list_files()
+            ctx.mon("reader.list_files.second-generation")
+            ok = compare_listing(ctx, "C07", form + ".second-generation", again, stored, wit, check_ext=True)
+        except Exception as e:
+            ctx.violation("disk-roundtrip", form + ".second-generation", "RAISED:%s" % type(e).__name__, dict(wit, error=str(e)[:100]), prop="C07")
+            ok = False
     ctx.outcome("ok" if ok else "mismatch")
     if ok:
         if ctx.prop != "C08":
